@@ -1,6 +1,8 @@
 // detsim core: fibers, scheduler, GOMP/omp surface, hook entry points.
 #include "sim.hpp"
 
+#include "VerifHooks.hpp" // /repo/src: operation and event codes
+
 #include <algorithm>
 #include <csetjmp>
 #include <cstdio>
@@ -618,7 +620,7 @@ extern "C" {
 void cmi_verif_yield(const void *address, int operation) {
   if (!G.active)
     return;
-  if (operation == 5 /*PLAIN_READ*/ && !G.sched.plain_points)
+  if (operation == CMI_VERIF_OP_PLAIN_READ && !G.sched.plain_points)
     return;
   point(address, operation);
 }
@@ -636,7 +638,7 @@ void cmi_verif_result(const void *address, int operation, long result) {
   const int me = G.region ? G.cur : 0;
   if (G.atomic_level) {
     // tracking is done by the tsan shim at the level of single operations
-  } else if (operation == 2 /*LOCK*/) {
+  } else if (operation == CMI_VERIF_OP_LOCK) {
     const bool ok = (pre == 0 && result != 0);
     if (ok) {
       G.holders[address] = me;
@@ -645,7 +647,7 @@ void cmi_verif_result(const void *address, int operation, long result) {
     } else if (G.region && G.team > 1) {
       ++G.fibers[G.cur].fail_streak;
     }
-  } else if (operation == 3 /*UNLOCK*/) {
+  } else if (operation == CMI_VERIF_OP_UNLOCK) {
     if (result == 0)
       G.holders.erase(address);
   }
@@ -660,7 +662,7 @@ void cmi_verif_event(int kind, const void *a, const void *b, long x, long y) {
   if (!G.active)
     return;
   ++G.seq;
-  if (kind == 11 /*PROBE*/) {
+  if (kind == CMI_VERIF_EVENT_PROBE) {
     probe((const char *)a, 1);
     return;
   }
